@@ -530,6 +530,10 @@ package zygo
 // expander (a helper that rejects calls the language accepts) is a new source and must be reviewed.
 //@ errorsources C15 (*Generator).GenerateMacexpand | Apply|Errorf|Generate|GenerateCall|ListToArray|New
 //@ errorsources C15 (*Generator).GenerateCallBySymbol | Apply|Errorf|New|Generate[A-Za-z]*|generateSyntaxQuote[A-Za-z]*
+// a scope is bound into through the interpreter's own (live) scope stack only: nothing binds into
+// a scope stack it was handed as a value (a package), which would bypass the capitalisation check
+// of the dot-path walkers
+//@ callers C18 (*Stack).BindSymbol | (*Zlisp).LexicalBindSymbol
 // mdef: every target slot is filled with a symbol before the value is compiled; the bind
 // instruction hands each one to BindSymbol, which dereferences it
 //@ func (*Generator).GenerateMultiDef
